@@ -91,6 +91,7 @@ pub mod thread {
         fn clone(&self) -> Self {
             match cur() {
                 Some((sched, me)) => {
+                    sched.yield_point(me, std::thread::panicking());
                     // Reads possibly stale memory: check before touching
                     // anything but the serial.
                     let serial = self.serial;
